@@ -550,6 +550,10 @@ func genC18At(seed uint64, cfg tierCfg, id int) *Scenario {
 					maxBits = 5000
 				case 2:
 					maxBits = 40_000
+				case 3:
+					if cfg.maxBits >= 400_000 && r.chance(0.08) {
+						maxBits = 3_000_000 // beyond 2^16 words
+					}
 				}
 				prog = append(prog, genBitHistory(r, maxOps, maxBits, hist))
 				hist++
